@@ -19,6 +19,9 @@ def build(repo, tier, seed):
     f_syn, f_und = factory.obligations(repo)
     syn = syn + [x for x in f_syn if "evaluates-nothing" in x["name"]]
     und = und + f_und
+    from . import chained_effect
+    ce_vcs, ce_und = chained_effect.build(repo)
+    und = und + ce_und
     import hashlib
     hashes = {"labrea/*.py": hashlib.sha256("".join(m.source for _, m in sorted(repo.modules.items())).encode()).hexdigest()[:16]}
     fns = []
@@ -26,7 +29,7 @@ def build(repo, tier, seed):
         ci = repo.find_class(c)
         if ci:
             fns.append({"name": f"{ci.module.name}:{c}.evaluate", "sha256_16": repo.sha(ci.module, repo.find_method(ci, "evaluate")[1])})
-    return {"vcs": [], "syntactic": syn + s2 + [x for x in t_syn + d_syn if "no-evaluation" in x["name"]], "undecided": und + u2 + t_und + d_und,
+    return {"vcs": ce_vcs, "syntactic": syn + s2 + [x for x in t_syn + d_syn if "no-evaluation" in x["name"]], "undecided": und + u2 + t_und + d_und,
             "functions": fns, "hashes": hashes, "level": "proof", "witness": classlaws.witness_fn(tier),
             "trusted_base": ["the ghost trace recorded by the symbolic executor (every modular child call, user-callable application, request and cache access is an event)",
                              "obligations are decided on the trace of EVERY path of the real evaluate()/construction method: they hold for all graphs, member counts and dictionaries"],
